@@ -15,7 +15,7 @@ from . import series_common as sc
 
 ID = "C19"
 PROPS = "props/C19.v"
-GENERATED = [tr.OUT, tr.OUT4]
+GENERATED = [tr.OUT, tr.OUT4, tr.OUT5]
 CASE_DEPS = ["lib/CaseUtil.vo", "lib/DbCase.vo", "model/Databox.vo", "model/Slate.vo", "model/Csv.vo"]
 ALLOWED_AXIOMS: set = set()
 TRUSTED = [
